@@ -10,16 +10,21 @@ pub enum AtomicOrdering { Relaxed, Release, Acquire, AcqRel, SeqCst }
 pub struct AtomicUsize { pub v: usize, pub init: Ghost<usize> }
 impl AtomicUsize {
     pub fn new(v: usize) -> (a: AtomicUsize) ensures a.v == v, a.init@ == v { AtomicUsize { v, init: Ghost(v) } }
-    pub fn load(&self, o: AtomicOrdering) -> (r: usize) ensures r == self.v { self.v }
+    // std panics on load(Release) / load(AcqRel)
+    pub fn load(&self, o: AtomicOrdering) -> (r: usize)
+        requires !(o is Release) && !(o is AcqRel)
+        ensures r == self.v
+    { self.v }
     // wraps around on overflow, returns the previous value
     #[verifier::external_body]
     pub fn fetch_add(&mut self, d: usize, o: AtomicOrdering) -> (r: usize)
         ensures r == old(self).v, final(self).init == old(self).init, final(self).v == (if old(self).v + d <= usize::MAX { (old(self).v + d) as usize } else { (old(self).v + d - usize::MAX - 1) as usize })
     { unimplemented!() }
+    // std panics if the failure ordering `fo` is Release or AcqRel (it is a load ordering)
     // f is applied to the current value; Some(n) stores n and yields Ok(previous), None stores nothing and yields Err(previous)
     #[verifier::external_body]
     pub fn fetch_update<F: FnMut(usize) -> Option<usize>>(&mut self, so: AtomicOrdering, fo: AtomicOrdering, f: F) -> (r: core::result::Result<usize, usize>)
-        requires f.requires((old(self).v,))
+        requires f.requires((old(self).v,)), !(fo is Release) && !(fo is AcqRel)
         ensures final(self).init == old(self).init, match r {
             Ok(p) => p == old(self).v && f.ensures((p,), Some(final(self).v)),
             Err(p) => p == old(self).v && f.ensures((p,), None::<usize>) && final(self).v == old(self).v,
